@@ -17,6 +17,22 @@ theorem gen_msgid_formats :
     Generated.C19.subDepositFmt = ("%d-%d-%d-%d", "eh.domainID,d.DestDomainID,startBlock,endBlock") ∧
     Generated.C19.btcDepositFmt = ("%d-%d-%d", "sourceID,destDomainID,blockNumber") := by decide
 
+/-- the retry handlers' ids: the same arguments as the deposit ids under the constant prefix `retry-`; RetryV2: the
+    event's own source and destination -/
+theorem gen_retry_formats :
+    Generated.C19.evmRetryV1Fmt = ("retry-%d-%d-%d-%d", "eh.domainID,d.DestinationDomainID,startBlock,endBlock") ∧
+    Generated.C19.evmRetryV2Fmt = ("retry-%d-%d", "e.SourceDomainID,e.DestinationDomainID") ∧
+    Generated.C19.subRetryFmt = ("retry-%d-%d-%d-%d", "rh.domainID,d.DestDomainID,startBlock,endBlock") := by decide
+
+/-- Bitcoin executor: the transfer-wide session id is `<messageID>-<hex resource id>` (this one is NOT observable
+    behaviourally in the harness: it is only broadcast after a completed signing whose transaction cannot be sent), the
+    per-input session id is the hex of the input's sighash; Substrate executor: message id and session id handed to
+    NewSigning are both the message id of the first pending proposal -/
+theorem gen_executor_session_ids :
+    Generated.C19.btcSessionAssignments =
+      ["fmt.Sprintf(\"%s-%s\", messageID, hex.EncodeToString(resource.ResourceID[:]))", "hex.EncodeToString(signingHash)"] ∧
+    Generated.C19.subSessionArgs = ["transferProposals[0].MessageID", "messageID", "messageID"] := by decide
+
 theorem gen_btc_sorted_matching : Generated.C19.btcMatchLoopOverSortedSlice = true := by decide
 
 end Sygma.C19
